@@ -217,6 +217,43 @@ theorem window4_rejected (p s w w' : Bytes) (hl : w.length = w'.length) (h4 : w.
 example : computeCRC32 ([0x12] ++ [0x34, 0x56] ++ be32 (computeCRC32 [0x12, 0x34, 0x56])) = 0#32 ∧
     ([0x34, 0x56] : Bytes) ≠ [0x56, 0x34] := by decide +kernel
 
+theorem be32_eq (c : BitVec 32) :
+    be32 c = [c.toNat / 16777216 % 256, c.toNat / 65536 % 256, c.toNat / 256 % 256, c.toNat % 256] := by
+  simp [be32, beBytes]
+
+theorem be32_lt (c : BitVec 32) : ∀ b ∈ be32 c, b < 256 := by
+  intro b hb
+  rw [be32_eq] at hb
+  simp only [List.mem_cons, List.not_mem_nil, or_false] at hb
+  omega
+
+theorem be32_inj (c d : BitVec 32) (h : be32 c = be32 d) : c = d := by
+  rw [be32_eq, be32_eq] at h
+  simp only [List.cons.injEq, and_true] at h
+  apply BitVec.eq_of_toNat_eq
+  have := c.isLt
+  have := d.isLt
+  omega
+
+/-- **residue test = compare test**: a body followed by four CRC bytes has residue 0 exactly when those bytes are
+the body's checksum.  (`←` is `C10.residue_zero`; `→` is the 4-byte window theorem applied to the CRC field.)  So the
+Go parser's verdict — compare the stored value with the computed one — accepts exactly the units a residue-checking
+decoder accepts. -/
+theorem residue_zero_iff (m : Bytes) (stored : BitVec 32) :
+    computeCRC32 (m ++ be32 stored) = 0#32 ↔ stored = computeCRC32 m := by
+  constructor
+  · intro h
+    apply Decidable.byContradiction
+    intro hne
+    have hw : be32 stored ≠ be32 (computeCRC32 m) := fun e => hne (be32_inj _ _ e)
+    have := window4_rejected m [] (be32 (computeCRC32 m)) (be32 stored) (by rw [be32_eq, be32_eq]; rfl)
+      (by rw [be32_eq]; exact Nat.le_refl 4) (be32_lt _) (be32_lt _) (fun e => hw e.symm)
+      (by rw [List.append_nil]; exact C10.residue_zero m)
+    rw [List.append_nil] at this
+    exact this h
+  · intro h
+    rw [h]; exact C10.residue_zero m
+
 -- the premises are satisfiable and the conclusion is not trivial: a valid 2+4-byte unit, a different prefix
 example : computeCRC32 ([0x12, 0x34] ++ be32 (computeCRC32 [0x12, 0x34])) = 0#32 ∧
     computeCRC32 [0x12, 0x35, 0x00] ≠ computeCRC32 [0x12, 0x34] := by decide +kernel
